@@ -133,7 +133,7 @@ fn run(r: &mut Run) -> Result<(), MachineryError> {
     f_space(r, "C03/fragments(30-menu,all-penalties)", phi.clone(), t.pick(3, 4), width_lists(1.0), pens_all())?;
     f_space(r, "C03/fragments(30-menu,deeper)", phi, t.pick(4, 5), width_lists(1.0), vec![DEFAULT_PEN, [3, 7, 2, 5, 0]])?;
     let three = vec![Frag { w: 1.0, ws: 1.0, p: 0.0 }, Frag { w: 3.0, ws: 1.0, p: 0.0 }, Frag { w: 2.0, ws: 0.0, p: 1.0 }];
-    f_space(r, "C03/fragments(3-menu,long)", three, t.pick(10, 13), width_lists(1.0), vec![DEFAULT_PEN, [0, 1, 4, 25, 25]])?;
+    f_space(r, "C03/fragments(3-menu,long)", three, t.pick(10, 15), width_lists(1.0), vec![DEFAULT_PEN, [0, 1, 4, 25, 25]])?;
     periodic(r, t.pick((1..=20).chain([30, 45, 60]).collect(), (1..=60).collect()))?;
     let s = 1048576.0;
     let scaled = frag_menu(&[0.0, 1.0 * s, 3.0 * s, 5.0 * s], &[0.0, 1.0 * s], &[0.0, 1.0 * s]);
@@ -145,6 +145,6 @@ fn run(r: &mut Run) -> Result<(), MachineryError> {
         algs.truncate(2);
     }
     let g = Gamma { seps: seps(), algs, spls: vec![Spl::None, Spl::Hyphen], bws: vec![true, false], indents: vec![("", ""), (">", ""), ("", ">>"), ("\u{4f60}", ">")], crlf: vec![false] };
-    text_space(r, "C03/text", &[L, LL, LLL, SP, HY, NL, W], t.pick(4, 5), &g, M_C03, WidthMode::Display, 0)?;
+    text_space(r, "C03/text", &[L, LL, LLL, SP, HY, NL, W], t.pick(4, 6), &g, M_C03, WidthMode::Display, 0)?;
     Ok(())
 }
